@@ -19,6 +19,7 @@ Output conventions
 from __future__ import annotations
 
 import ast
+import re
 import sys
 from pathlib import Path
 
@@ -178,7 +179,9 @@ class Translator:
         if ann is None:
             self.bad(node, "missing annotation")
         s = ast.unparse(ann)
-        s = s.replace("t.", "").replace("typing.", "")
+        s = s.replace("typing.", "")
+        s = re.sub(r"\bt\.", "", s)
+        s = s.strip("'\"")          # string annotations
         table = {
             "bool": "bool",
             "Any": "spec",
@@ -189,6 +192,12 @@ class Translator:
             "UnionSpecifier": "union",
             "RangeSpecifier | EmptySpecifier": "spec",
             "Sequence[RangeSpecifier]": "list range",
+            "list[RangeSpecifier]": "list range",
+            "List[RangeSpecifier]": "list range",
+            "tuple[RangeSpecifier, ...]": "list range",
+            "Tuple[RangeSpecifier, ...]": "list range",
+            "Iterable[RangeSpecifier]": "list range",
+            "Self": None,
             "None": "NoneType",
             "str": "str",
         }
